@@ -1,6 +1,6 @@
 (* C17 model: blacklist-aware genome tiling (bamProcessing/bamBinCounts.py) and bp_chunked
-   (utils/binning.py).  Hand transcription of the code (with fixes/C17-D21.patch and
-   fixes/C17-D23.patch applied); tied to the source by the correspondence check tools/c17.py.
+   (utils/binning.py).  Hand transcription of the code (as repaired by fixes/C17-D21.patch and
+   fixes/C17-D23.patch); tied to the source by the correspondence check tools/c17.py.
    Definitions only. *)
 From Coq Require Import ZArith List Bool.
 Import ListNotations.
